@@ -9,7 +9,10 @@ rm -rf $base; mkdir -p $base
 git -C /repo worktree add --detach $base/repo HEAD >/dev/null 2>&1 || { echo "worktree failed"; exit 2; }
 git -C $base/repo apply "$patch" || { echo "APPLY FAILED $name"; git -C /repo worktree remove --force $base/repo; rm -rf $base; exit 2; }
 # the committed state of /verif (so that edits in progress do not leak into a long batch)
-mkdir -p $base/verif && git -C /verif archive HEAD | tar -x -C $base/verif
+# (WIP=1: the working tree instead, for trying an edit before committing it)
+mkdir -p $base/verif
+if [ -n "$WIP" ]; then rsync -a --exclude .git --exclude replays --exclude evidence /verif/ $base/verif/; mkdir -p $base/verif/evidence $base/verif/replays
+else git -C /verif archive HEAD | tar -x -C $base/verif; fi
 mkdir -p $base/cache
 [ -d /var/tmp/sylvia-verif/target ] && cp -r /var/tmp/sylvia-verif/target $base/cache/target 2>/dev/null
 export VERIF_REPO=$base/repo VERIF_CACHE=$base/cache
